@@ -139,7 +139,7 @@ func genNyctMsg(t *rapid.T, zone string) (*rgen.Msg, int, int, bool) {
 			id = rapid.SampledFrom([]string{"T", "trip", "12345", "A_B", "1234567"}).Draw(t, "plainID")
 		}
 		id = fmt.Sprintf("%s%d", id, i) // alnum tail keeps the NYCT format and makes ids distinct
-		route := rapid.SampledFrom([]string{"A", "1", "M", "M", "GS"}).Draw(t, "route")
+		route := rapid.SampledFrom([]string{"A", "1", "M", "M", "GS", "m", "M "}).Draw(t, "route")
 		d := rgen.TripDesc{TripID: &id, RouteID: &route, StartDate: rgen.P(rgen.GenDate(t, "startDate", zone))}
 		if len(prevNyct) > 0 && rapid.IntRange(0, 4).Draw(t, "sameTripIDOtherDay") == 0 {
 			// the same trip_id on another service day is another trip, with NYCT data of its own
